@@ -40,7 +40,9 @@ def generate(rng, tier, cls):
     ops = domgen.gen_tree_ops(rng, 'T1', max_changes=rng.choice([1, 2, 4]),
                               max_files=rng.choice([1, 2, 4]),
                               p_set=rng.choice([0.2, 0.5, 0.9]),
-                              enc_pool=pool, full=rng.chance(0.85))
+                              enc_pool=pool, full=rng.chance(0.85),
+                              p_bad_add=rng.choice([0.0, 0.0, 0.3]),
+                              p_list_edit=rng.choice([0.0, 0.0, 0.6]))
     return {'actors': [{'id': 'A1', 'kind': 'dom', 'ops': ops}],
             'schedule': [], 'faults': [],
             'block_size': rng.choice([None, None, 1, 13, 97]),
@@ -82,6 +84,62 @@ def execute(scn, L):
 
     if 'error' in snap:
         out.discarded = 'tree-broken'
+        return out
+
+    # the tree holds what the successful calls put there: one change per
+    # accepted add_change, one file per accepted add_file, minus what was
+    # dropped from the lists in place
+    shape = []
+
+    for r in st.log:
+        op = r['op']
+
+        if op.get('tree') != 'T1' or r['outcome'] != 'ok':
+            if op.get('tree') == 'T1' and r['outcome'] == 'raise' and \
+               op.get('op') in ('add_change', 'add_file'):
+                out.probe('rejected_add_call')
+
+            continue
+
+        name = op.get('op')
+
+        try:
+            if name == 'new_tree':
+                shape = []
+            elif name == 'parse':
+                out.discarded = 'outside-domain:parse'
+                return out
+            elif name == 'add_change':
+                shape.append(0)
+            elif name == 'add_file':
+                shape[op.get('change', 0)] += 1
+            elif name == 'list_edit':
+                out.probe('list_edited_in_place')
+                how = op.get('how')
+                path = op.get('path') or []
+
+                if not path:
+                    if how == 'reverse':
+                        shape.reverse()
+                    elif how == 'rotate':
+                        shape.append(shape.pop(0))
+                    elif how == 'swap':
+                        shape[0], shape[-1] = shape[-1], shape[0]
+                    elif how == 'del_first':
+                        del shape[0]
+                    else:
+                        shape.pop()
+                elif how in ('del_first', 'del_last'):
+                    shape[path[0]] -= 1
+        except (IndexError, TypeError):
+            out.discarded = 'outside-domain:shape'
+            return out
+
+    if shape != [len(c['files']) for c in snap['changes']]:
+        out.violate('C05.tree-shape', 'changes-and-files',
+                    {'accepted_calls_imply': shape,
+                     'tree_holds': [len(c['files'])
+                                    for c in snap['changes']]})
         return out
 
     try:
